@@ -68,6 +68,11 @@ func (s *scn) applyAudit(st CStep) {
 	case "updatenode":
 		target = node.Addr.String()
 		tx = s.b.bvm(by, constant.NodeManagerContractAddr, "UpdateNode", S(target), S(fmt.Sprintf("c16-upd-%d-%d", st.A%3, s.step)), S(s.chains[st.B%len(s.chains)].id), S("reason"))
+	case "selfupdate":
+		// the audit administrator itself updates a node (allowed for the node it is bound to while it is available)
+		by = adm
+		target = s.auditNode(st.B).Addr.String()
+		tx = s.b.bvm(by, constant.NodeManagerContractAddr, "UpdateNode", S(target), S(fmt.Sprintf("c16-self-%d-%d", st.B%3, s.step)), S(s.chains[0].id), S("reason"))
 	case "regadmin":
 		target = adm.Addr.String()
 		tx = s.b.bvm(by, constant.RoleContractAddr, "RegisterRole", S(target), S("auditAdmin"), S(s.auditNode(st.B).Addr.String()), S("reason"))
@@ -186,14 +191,44 @@ func (s *scn) applyAuditCycle(st CStep) {
 	w := s.cfg.World
 	by := w.adminKey(st.N % w.Admins)
 	S := pb.String
-	adm := s.auditAdmin(0)
-	// the node the administrator is bound to, as the role record says
-	rcs := s.reps[0].viewCall(viewTx(s.users[0], constant.RoleContractAddr, "GetRoleInfoById", S(adm.Addr.String())))
-	var rv struct {
+	type roleRec struct {
 		NodeAccount string `json:"node_account"`
 		Status      string `json:"status"`
 	}
-	if len(rcs) != 1 || rcs[0] == nil || rcs[0].Status != pb.Receipt_SUCCESS || json.Unmarshal(rcs[0].Ret, &rv) != nil || rv.NodeAccount == "" {
+	lookup := func(k *Key) *roleRec {
+		rcs := s.reps[0].viewCall(viewTx(s.users[0], constant.RoleContractAddr, "GetRoleInfoById", S(k.Addr.String())))
+		rv := &roleRec{}
+		if len(rcs) != 1 || rcs[0] == nil || rcs[0].Status != pb.Receipt_SUCCESS || json.Unmarshal(rcs[0].Ret, rv) != nil || rv.NodeAccount == "" {
+			return nil
+		}
+		return rv
+	}
+	// the first audit administrator that has not been logged out (the second one is registered when needed)
+	adm := s.auditAdmin(0)
+	rvp := lookup(adm)
+	if rvp == nil || rvp.Status == "forbidden" {
+		adm = s.auditAdmin(1)
+		if rvp = lookup(adm); rvp == nil {
+			for i := 0; i < 3 && rvp == nil; i++ {
+				n := s.auditNode(i).Addr.String()
+				if s.gov.objStatus["node:"+n] == "available" {
+					s.auditDecide(s.auditSubmit(by, constant.RoleContractAddr, "regadmin", adm.Addr.String(), "RegisterRole", S(adm.Addr.String()), S("auditAdmin"), S(n), S("reason")), "approve")
+					rvp = lookup(adm)
+				}
+			}
+		}
+	}
+	if rvp == nil || rvp.Status == "forbidden" {
+		return
+	}
+	rv := *rvp
+	if st.B%5 == 4 && rv.Status == "available" {
+		// the administrator is logged out while an update of its node is being voted on; afterwards it tries to act again
+		upd := s.auditSubmit(by, constant.NodeManagerContractAddr, "updatenode", rv.NodeAccount, "UpdateNode", S(rv.NodeAccount), S(fmt.Sprintf("c16-upd-%d", s.step)), S(s.chains[0].id), S("reason"))
+		s.auditDecide(s.auditSubmit(by, constant.RoleContractAddr, "logoutrole", adm.Addr.String(), "LogoutRole", S(adm.Addr.String()), S("reason")), "approve")
+		s.auditDecide(upd, []string{"approve", "reject", "withdraw"}[st.N%3])
+		s.auditSubmit(adm, constant.NodeManagerContractAddr, "selfupdate", rv.NodeAccount, "UpdateNode", S(rv.NodeAccount), S(fmt.Sprintf("c16-self-%d", s.step)), S(s.chains[0].id), S("reason"))
+		s.res.Count("audit_cycle_logged_out_admin_acts")
 		return
 	}
 	other := ""
@@ -298,4 +333,83 @@ func (gm *govModel) checkOpenProposalStatus(h uint64, curSt map[string]string, t
 			gm.tainted[key] = true // one defect, one report: what follows on this object is a consequence
 		}
 	}
+}
+
+// govSubmit: one governance operation in a block of its own, left open; returns the proposal id ("" if refused or
+// if the operation needs no vote).
+func (s *scn) govSubmit(by *Key, to constant.BoltContractAddress, note, target, method string, args ...*pb.Arg) string {
+	s.flush()
+	s.add(s.b.bvm(by, to, method, args...), &txMeta{kind: "gov", sender: by, note: note, target: target})
+	rs := s.flush()
+	if rs == nil || len(rs.Receipts) == 0 {
+		return ""
+	}
+	rc := rs.Receipts[len(rs.Receipts)-1]
+	g := &governance.GovernanceResult{}
+	if rc.Status != pb.Receipt_SUCCESS || json.Unmarshal(rc.Ret, g) != nil {
+		return ""
+	}
+	if g.ProposalID != "" {
+		if s.auditSponsor == nil {
+			s.auditSponsor = map[string]*Key{}
+		}
+		s.auditSponsor[g.ProposalID] = by
+	}
+	return g.ProposalID
+}
+
+// applySvcCycle: a service and its appchain are operated on in turn - an operation on the service (freeze, logout,
+// update), then one on the appchain (freeze, logout, update, and the activation later), then another one on the
+// service (activate, logout) - and each proposal is approved, rejected, withdrawn or left open, as drawn. This is where
+// the cascade of an appchain operation meets a service that is in a state of its own or has a proposal of its own
+// pending. The verdicts come from the ordinary oracles (gating, cause, logged out is final, frozen / logged-out
+// appchain has no usable service, pending status while a proposal is open).
+func (s *scn) applySvcCycle(st CStep) {
+	if s.gov == nil || len(s.chains) == 0 {
+		return
+	}
+	w := s.cfg.World
+	c := s.chains[st.A%len(s.chains)]
+	sv := c.services[st.B%len(c.services)]
+	sid := c.id + ":" + sv.id
+	ga := w.adminKey(st.N % w.Admins)
+	S := pb.String
+	x := st.N
+	next := func(n int) int { v := x % n; x = x/n + 7; return v }
+	outcome := func() string { return []string{"approve", "approve", "approve", "reject", "withdraw", "open"}[next(6)] }
+	decide := func(pid string) {
+		if o := outcome(); o != "open" {
+			s.auditDecide(pid, o)
+		}
+	}
+	// 1. the service
+	switch next(3) {
+	case 0:
+		decide(s.govSubmit(ga, constant.ServiceMgrContractAddr, "freeze-service/govadmin/"+sid, sid, "FreezeService", S(sid), S("reason")))
+	case 1:
+		decide(s.govSubmit(c.admin, constant.ServiceMgrContractAddr, "logout-service/chainadmin/"+sid, sid, "LogoutService", S(sid), S("reason")))
+	}
+	// 2. the appchain
+	var chainP string
+	switch next(4) {
+	case 0:
+		chainP = s.govSubmit(ga, constant.AppchainMgrContractAddr, "freeze-chain/govadmin/"+c.id, c.id, "FreezeAppchain", S(c.id), S("reason"))
+	case 1:
+		chainP = s.govSubmit(c.admin, constant.AppchainMgrContractAddr, "logout-chain/chainadmin/"+c.id, c.id, "LogoutAppchain", S(c.id), S("reason"))
+	case 2:
+		chainP = s.govSubmit(c.admin, constant.AppchainMgrContractAddr, "update-chain/chainadmin/"+c.id, c.id, "UpdateAppchain", S(c.id), S(fmt.Sprintf("name-%s-c%d", c.id, s.step)), S("desc"), pb.Bytes(nil), S(c.admin.Addr.String()), S("reason"))
+	}
+	decide(chainP)
+	// 3. the service again
+	switch next(3) {
+	case 0:
+		decide(s.govSubmit(ga, constant.ServiceMgrContractAddr, "activate-service/govadmin/"+sid, sid, "ActivateService", S(sid), S("reason")))
+	case 1:
+		decide(s.govSubmit(c.admin, constant.ServiceMgrContractAddr, "logout-service/chainadmin/"+sid, sid, "LogoutService", S(sid), S("reason")))
+	}
+	// 4. the appchain comes back (or not)
+	if next(2) == 0 {
+		decide(s.govSubmit(ga, constant.AppchainMgrContractAddr, "activate-chain/govadmin/"+c.id, c.id, "ActivateAppchain", S(c.id), S("reason")))
+	}
+	s.res.Count("svc_cycle")
 }
